@@ -299,9 +299,15 @@ func genC20(t *rapid.T) *C20Case {
 		}
 		g.sb.WriteString(strings.Repeat("\n", n))
 	}
-	// optional text before the root bracket (no brackets, may contain newlines)
+	// optional text before the root bracket (may contain newlines and any bracket except the one that opens the root)
 	if oneIn(t, 3, "prefix") {
 		parts := []string{"garbage", "\n", "\n\n", " ", "x=1;", "\r\n", "// comment\n", "\t", "é\n"}
+		// brackets that do not open the root: those of the other container kind, and closing ones
+		if root.K == KList {
+			parts = append(parts, "{", "${VAR}\n", "}", "]", "{\"k\":1}\n")
+		} else {
+			parts = append(parts, "[", "[INFO] x\n", "]", "}", "[1,2]\n")
+		}
 		n := drawInt(t, 1, 5, "np")
 		for i := 0; i < n; i++ {
 			g.sb.WriteString(parts[drawIdx(t, len(parts), "pp")])
@@ -427,6 +433,6 @@ func checkC20Doc(c *C20Case, st *Stats, fileTag ...string) error {
 
 func init() {
 	Register("C20",
-		"a generated tree is rendered with drawn whitespace/newlines at every token boundary (LF, CRLF, blank lines, occasionally a raw newline inside a string), optional bracket-free text with newlines before the root (occasionally 255-1000 blank lines, thorough up to 70000), bare CR and CR LF layouts, and exactly one injected syntax error of a kind whose message cites a line (invalid literal in a list / as an object value, detected at its terminating delimiter; bad character where a key must start; bad character after a key; bad character after a nested container in an object), at a drawn nesting depth; the generator records the byte offset of the detecting character. Oracle: if the error text ends in 'on line N' then N == 1 + number of newline bytes before that offset; via ParseList, ParseObject and ParseFile. Non-trivial = at least one newline before the error and the error inside a nested container, or newlines in text before the root bracket. Distinct = distinct FNV-64a hash of the case JSON.",
+		"a generated tree is rendered with drawn whitespace/newlines at every token boundary (LF, CRLF, blank lines, occasionally a raw newline inside a string), optional text with newlines before the root (any bracket but the one that opens the root, e.g. an '[INFO]' log prefix before an object) (occasionally 255-1000 blank lines, thorough up to 70000), bare CR and CR LF layouts, and exactly one injected syntax error of a kind whose message cites a line (invalid literal in a list / as an object value, detected at its terminating delimiter; bad character where a key must start; bad character after a key; bad character after a nested container in an object), at a drawn nesting depth; the generator records the byte offset of the detecting character. Oracle: if the error text ends in 'on line N' then N == 1 + number of newline bytes before that offset; via ParseList, ParseObject and ParseFile. Non-trivial = at least one newline before the error and the error inside a nested container, or newlines in text before the root bracket. Distinct = distinct FNV-64a hash of the case JSON.",
 		GenC20, CheckC20)
 }
